@@ -205,7 +205,8 @@ CLAIMED = {
                 "loses a questionable node next to 7 empty slots (the genuine defect repaired in /repo commit a9da3a6). Tie: 8/160/15 "
                 "min/2 read from the source; slot-by-slot differential runs of the real RoutingTable (deep split chains, every prefix "
                 "depth, routers, own id, repeats) under the virtual clock; c08_ok (shape + all transition clauses at table level, "
-                "including across splits) evaluated in Coq on the real dumps; failing scripts are shrunk.",
+                "including across splits) evaluated in Coq on the real dumps; failing scripts are shrunk. "
+                "Checker theorems: c08_checker_accepts_model - c08_ok never rejects the model's own dumps (scripts with routers first, no placeholder address); c08_checker_sound_shape / _offer - every dump it accepts has 1..160 buckets of 8 slots, no live handle twice, every live slot in the bucket of its shared-prefix length, and every accepted offer step satisfies the nine eviction/update clauses; all resting on add_node_spec, a node-by-node specification of add_node through every chain of bucket splits.",
         "ref": "7/C08", "axioms": "none",
         "note_extra": "Table-level transition clauses across a bucket split are proved at bucket level and validated (not proved) at table level by c08_ok on every run. Offered addresses are assumed != 127.0.0.1:0 (empty-slot placeholder).",
     },
@@ -220,7 +221,8 @@ CLAIMED = {
                 "find_node/get_peers reply hold pairwise distinct contacts, each a live table entry, never the node's own id; "
                 "c09_reply_count - exactly min(8, live nodes of the family) of them; c09_nearest_bucket_first - the enumeration begins with "
                 "the live nodes of the bucket the target falls into. "
-                "Handler part on the real node: tables of 9..40 live contacts; a find_node and a get_peers for the same key handled back to back must list the same nodes; at most 8 distinct contacts, never the node itself; events replayed through the Coq model (exact lists and order).",
+                "Handler part on the real node: tables of 9..40 live contacts; a find_node and a get_peers for the same key handled back to back must list the same nodes; at most 8 distinct contacts, never the node itself; events replayed through the Coq model (exact lists and order). "
+                "Checker theorems: c09_checker_accepts_model; c09_checker_sound - an accepted closest-list is duplicate-free, a permutation of the live slots of the dump, with nodes sharing a longer prefix with the target first.",
         "ref": "7/C09", "axioms": "none", "note_extra": "",
     },
     "C10": {
@@ -232,7 +234,8 @@ CLAIMED = {
                 "runs of the real RoutingTable (statuses in dumps/contacts) and c10_ok recomputing the clauses from the event history "
                 "alone. KNOWN FINDING F-C10 (listed in known_findings.json, witnessed by c10_renamed_after_bad_refuted and reproduced "
                 "on the real table every run): a hearsay mention re-admits a contact that went bad before it answers again. "
-                "Per-contact histories (1-3 contacts, 30-90 events each) exercise the unanswered-query counter and its resets.",
+                "Per-contact histories (1-3 contacts, 30-90 events each) exercise the unanswered-query counter and its resets. "
+                "Checker theorems: c10_checker_accepts_model (scripts with non-decreasing clock); c10_checker_sound - in every accepted dump a contact reported good has an answer or received query less than 15 min old in its history and no contact with two unanswered queries is listed.",
         "ref": "7/C10", "axioms": "none", "note_extra": "",
     },
     "C06": {
@@ -246,7 +249,8 @@ CLAIMED = {
                 "on boundary-biased scripts and compared with the model (accept/refuse sequence + token equality pattern); an executable "
                 "checker of the four clauses (c06_ok) is evaluated in Coq on the real accept flags; failing scripts are shrunk. The "
                 "handler clause (storing gated on the check, source IP passed) is covered by the handler model of C05. "
-                "Handler part: server scenarios on the real node with right / foreign / altered / wrong-length / stale tokens; servercheck decides from the datagrams alone that announces are accepted only with a token issued to that IP at most 30 min earlier and never refused within 10 min, and that nothing refused is stored; events replayed through the Coq model.",
+                "Handler part: server scenarios on the real node with right / foreign / altered / wrong-length / stale tokens; servercheck decides from the datagrams alone that announces are accepted only with a token issued to that IP at most 30 min earlier and never refused within 10 min, and that nothing refused is stored; events replayed through the Coq model. "
+                "Checker theorems: c06_checker_decides_clauses / c06_checker_sound - c06_ok accepts an observed flag sequence exactly when every issue/presentation pair in it satisfies the three clauses (same IP within 10 min accepted; 30 min or later refused; other IP refused; raw and wrong-length tokens refused); c06_checker_accepts_model - it never rejects the model's own run on scripts whose presentations refer to earlier issues.",
         "ref": "7/C06", "axioms": "none",
         "note_extra": "Assumptions A-SHA (SHA-1 injective on ip||secret: tokens are symbolic terms), A-RNG (fresh secrets), A-TIME.",
     },
@@ -261,7 +265,8 @@ CLAIMED = {
                 "clock on boundary-biased scripts (24 h +-1 ns, 498..502 pairs) and compared reply by reply with the model in Coq; an "
                 "executable checker of the spec (c07_ok) is evaluated on the real replies and failing scripts are shrunk. The handler "
                 "part of C07 (contact address from port/implied port, family filter) is covered by the handler model of C05. "
-                "Handler part: on the real serving node the values of every get_peers reply are exactly the live (< 24 h) acknowledged same-family contacts unless cut at the datagram cap (servercheck on the datagrams; up to 210 announcers per info-hash); events replayed through the Coq model.",
+                "Handler part: on the real serving node the values of every get_peers reply are exactly the live (< 24 h) acknowledged same-family contacts unless cut at the datagram cap (servercheck on the datagrams; up to 210 announcers per info-hash); events replayed through the Coq model. "
+                "Checker theorems: c07_checker_decides_spec - the executable checker c07_ok evaluated on the implementation's observed replies returns None exactly when the observed trace satisfies the abstract-map specification (sound and complete, no side condition); c07_checker_accepts_model - it never rejects the proven model's own trace.",
         "ref": "7/C07", "axioms": "none",
         "note_extra": "Assumption A-TIME (one clock reading per operation, monotone clock). The per-hash HashMap vectors are represented by one insertion-ordered list.",
     },
